@@ -91,6 +91,91 @@ Proof.
   apply Rmult_le_compat_l; lra.
 Qed.
 
+(* T1', T2', T3': three or more designs — the whole range m <= 6 *)
+Lemma ln_pi_sq : 9 / 4 <= ln (PI ^ 2).
+Proof.
+  pose proof SchedulesA.PI_lb as HPI.
+  assert (HP2 : 9.869 <= PI ^ 2) by nra.
+  assert (B : INR 9 / INR 4 <= ln (PI ^ 2)).
+  { apply ln_lb; [lia | lra |].
+    apply Rle_trans with (9.869 ^ 4); [simpl; lra|]. apply pow_incr. lra. }
+  eapply Rle_trans; [|exact B]. right. simpl. lra.
+Qed.
+
+(* T2' *)
+Lemma lm_level_partial6 : forall m L, (1 <= m <= 6)%nat -> 9 / 4 <= L ->
+  INR m + 2 * sqrt (INR m * L) + 2 * L <= (2 * L) * (2 * L).
+Proof.
+  intros m L Hm HL.
+  assert (Hm4 : INR m <= 6).
+  { replace 6 with (INR 6) by (simpl; lra). apply le_INR. lia. }
+  assert (Hm1 := SchedulesA.INR_ge_1 m (proj1 Hm)).
+  set (mm := INR m) in *.
+  assert (P : 0 <= mm * L) by nra.
+  assert (S : 2 * sqrt (mm * L) <= mm + L).
+  { apply SchedulesB.sq_le_le; [pose proof (sqrt_pos (mm * L)); lra | lra |].
+    replace (2 * sqrt (mm * L) * (2 * sqrt (mm * L))) with (4 * (sqrt (mm * L) * sqrt (mm * L))) by ring.
+    rewrite sqrt_sqrt by exact P. pose proof (Rle_0_sqr (mm - L)) as Q. unfold Rsqr in Q. lra. }
+  assert (0 <= (L - 9 / 4) * (L - 9 / 4)) by nra.
+  assert (0 <= (L - 9 / 4) * L) by nra.
+  nra.
+Qed.
+
+(* T3' *)
+Theorem partial_gp_ell_union_bound_m6 : forall C2 K m delta nv N, chi2_lm_ok C2 ->
+  (3 <= K)%nat -> (1 <= m <= 6)%nat -> 0 < delta < 1 ->
+  sumR (fun t => INR K * C2 m (paveba_partial_gp_alpha nv delta (INR K) (INR m) (INR t) 1 *
+                               paveba_partial_gp_alpha nv delta (INR K) (INR m) (INR t) 1)) N <= delta.
+Proof.
+  intros C2 K m delta nv N [Hmono Hlm] HK Hm Hd.
+  assert (HP := SchedulesA.PI_lb).
+  assert (HP9 : 9.869 <= PI ^ 2) by (simpl; nra).
+  set (c := 3 * delta / PI ^ 2).
+  assert (Hinv : 0 < / PI ^ 2) by (apply Rinv_0_lt_compat; lra).
+  assert (Hc0 : 0 <= c).
+  { unfold c, Rdiv. apply Rmult_le_pos; lra. }
+  assert (Hc2 : 2 * c <= delta).
+  { unfold c, Rdiv.
+    assert (Hi2 : / PI ^ 2 <= / 9.869) by (apply Rinv_le_contravar; lra).
+    assert (X2 : 3 * delta * / PI ^ 2 <= 3 * delta * / 9.869) by (apply Rmult_le_compat_l; lra).
+    lra. }
+  apply Rle_trans with (2 * c); [|exact Hc2].
+  apply SchedulesA.sumR_bound; [exact Hc0|].
+  intros t Ht.
+  assert (HK' : 3 <= INR K).
+  { replace 3 with (INR 3) by (simpl; lra). apply le_INR. exact HK. }
+  assert (Ht' := SchedulesA.INR_ge_1 t Ht).
+  specialize (Hmono m). specialize (Hlm m).
+  pose proof (lm_level_partial6 m) as Hlev.
+  set (k := INR K) in *. set (tt := INR t) in *. set (mm := INR m) in *.
+  cbv beta zeta delta [paveba_partial_gp_alpha].
+  set (A := PI ^ 2 * tt ^ 2 * k / (3 * delta)).
+  assert (HA3 : PI ^ 2 <= A).
+  { unfold A. replace (PI ^ 2 * tt ^ 2 * k / (3 * delta)) with (PI ^ 2 / 3 * (tt * tt * k / delta)) by (field; lra).
+    assert (3 <= tt * tt * k / delta).
+    { assert (1 <= (tt * tt * k / 3) / delta).
+      { apply SchedulesA.one_le_div; [lra|]. assert (1 <= tt * tt) by nra. nra. }
+      replace (tt * tt * k / delta) with (3 * (tt * tt * k / 3 / delta)) by (field; lra). lra. }
+    nra. }
+  assert (HApos : 0 < A) by lra.
+  assert (HL : ln (PI ^ 2) <= ln A) by (apply SchedulesA.ln_le'; lra).
+  assert (HL1 : 9 / 4 <= ln A) by (pose proof ln_pi_sq; lra).
+  assert (HeL : exp (- ln A) = 1 / A) by (apply SchedulesA.exp_neg_ln; exact HApos).
+  set (L := ln A) in *.
+  replace (2 * L / 1) with (2 * L) by field.
+  assert (Hl : mm + 2 * sqrt (mm * L) + 2 * L <= 2 * L * (2 * L)) by (apply Hlev; assumption).
+  assert (Hpos : 0 <= mm + 2 * sqrt (mm * L) + 2 * L).
+  { pose proof (sqrt_pos (mm * L)). pose proof (pos_INR m). fold mm in H0. lra. }
+  assert (H1 : C2 m (2 * L * (2 * L)) <= C2 m (mm + 2 * sqrt (mm * L) + 2 * L)) by (apply Hmono; assumption).
+  assert (H2 : C2 m (mm + 2 * sqrt (mm * L) + 2 * L) <= exp (- L)) by (apply Hlm; [lia | lra]).
+  rewrite HeL in H2.
+  assert (HkA : k * (1 / A) = c * (1 / (tt * tt))).
+  { unfold A, c. field. repeat split; lra. }
+  rewrite <- HkA.
+  apply Rmult_le_compat_l; lra.
+Qed.
+
 Print Assumptions partial_gp_ell_union_bound_m4.
 Print Assumptions ln_two_pi_sq_third.
 Print Assumptions lm_level_partial.
+Print Assumptions partial_gp_ell_union_bound_m6.
